@@ -20,6 +20,8 @@ structure ICtx where
   named : String → Option Nat
   /-- value of `Enum::Variant` given the enum's qualified name -/
   enumVariant : String → String → Option Int
+  /-- the document's type name: the context the C++ translator passes to `QCoreApplication::translate` -/
+  docType : String := ""
 
 def primTy : Prim → Ty
   | .bool => .bool | .double => .double | .int => .int | .qstring => .str | .qvariant => .variant | .uint => .uint
@@ -100,7 +102,7 @@ def evalRvalue (c : ICtx) (s : State) : Rvalue → Option (Val × State)
        | .consoleLog lv, _ => (QV.Spec.Sem.concretizeAll vs).map fun vs => (.void, s.emit (.log lv vs))
        | .max, [a, b] => (QV.Spec.Sem.minmax c.H.F true a b).map fun v => (v, s)
        | .min, [a, b] => (QV.Spec.Sem.minmax c.H.F false a b).map fun v => (v, s)
-       | .tr, [.str x] => some (.str x, s)
+       | .tr, [.str x] => some (.str (c.H.tr c.docType x), s)
        | _, _ => none)
   | .callMethod obj m args =>
     (match evalOperand c s.L obj, evalOperands c s.L args with
